@@ -837,12 +837,25 @@ pub fn mutate(mut d: Draft, which: &'static str, c: &mut Choices) -> Mutated {
         "pk-missing" => d.remove(&pkname),
         "pk-len" => {
             let mut pk = ref_pk(d.scheme, &d.secret);
-            match c.below(3) {
+            match c.below(6) {
                 0 => {
                     pk.pop();
                 }
                 1 => pk.push(0),
-                _ => pk.insert(0, 2),
+                2 => pk.insert(0, 2),
+                // other renderings of the SAME key that are not the record form: bare x||y coordinates
+                // (64 bytes), x alone (32), hybrid form (65, tag 06/07); for ed25519 the key twice (64)
+                3 if d.scheme == Scheme::Secp => pk = crypto::secp_uncompressed(&pk).unwrap().to_vec(),
+                4 if d.scheme == Scheme::Secp => pk = pk[1..].to_vec(),
+                3 | 4 => pk = [&pk[..], &pk[..]].concat(),
+                _ => {
+                    if d.scheme == Scheme::Secp {
+                        let u = crypto::secp_uncompressed(&pk).unwrap();
+                        pk = [&[0x06 | (u[63] & 1)][..], &u[..]].concat();
+                    } else {
+                        pk.insert(0, 0x20);
+                    }
+                }
             }
             d.set(&pkname, rlp::encode_str(&pk));
         }
